@@ -237,3 +237,78 @@ func c08WireHeaders(r *Run) {
 		}
 	}
 }
+
+// c08QueuedUnary: a unary call with a deadline that has to wait for one of the connection's unary
+// workers (eight other unary calls are in their handlers when it arrives). Its handler's deadline is
+// still the caller's: not earlier than the caller's minus 1 ms, not later than the caller's plus the
+// time the request took to reach the handler (the wait included).
+func c08QueuedUnary(r *Run) {
+	if !r.Want("queued") {
+		return
+	}
+	for rep, reps := 0, r.Scale(2, 12); rep < reps && r.NumViolations() <= 4; rep++ {
+		wait := time.Duration(100+150*(rep%3)) * time.Millisecond
+		rem := time.Duration(3+rep) * time.Second
+		in := map[string]any{"busy_unary_calls": 8, "released_after": wait.String(), "remaining": rem.String()}
+		r.Progress("queued", in)
+		rig := NewRig(RigOpt{Serialise: rep%2 == 0})
+		release := make(chan struct{})
+		entered := make(chan struct{}, 16)
+		type obs struct {
+			has   bool
+			dl    time.Time
+			tSeen time.Time
+		}
+		got := make(chan obs, 1)
+		rig.Impl.SetUnary(func(c context.Context, req []byte) ([]byte, error) {
+			if string(req) == "block" {
+				entered <- struct{}{}
+				<-release
+				return req, nil
+			}
+			dl, has := c.Deadline()
+			got <- obs{has, dl, time.Now()}
+			return req, nil
+		})
+		var wg sync.WaitGroup
+		for i := 0; i < 8; i++ {
+			wg.Add(1)
+			go func() { defer wg.Done(); callUnary(context.Background(), rig.CC, []byte("block")) }()
+		}
+		busy := within(hangTimeout, func() {
+			for i := 0; i < 8; i++ {
+				<-entered
+			}
+		})
+		t0 := time.Now()
+		D := t0.Add(rem)
+		cctx, ccancel := context.WithDeadline(context.Background(), D)
+		done := make(chan struct{})
+		go func() { defer close(done); callUnary(cctx, rig.CC, []byte("x")) }()
+		time.Sleep(wait)
+		close(release)
+		ok := within(hangTimeout, func() { <-done; wg.Wait() })
+		ccancel()
+		r.Eval(fmt.Sprintf("queued/%d", rep), true)
+		switch {
+		case !busy || !ok:
+			r.Violate("queued.hang", "ops", "unary calls on one connection did not finish", in, goroutineDump(), nil)
+		default:
+			select {
+			case o := <-got:
+				switch {
+				case !o.has:
+					r.Violate("queued.lost", "ops", "caller's deadline did not reach the handler", in, nil, nil)
+				case o.dl.Before(D.Add(-time.Millisecond)):
+					r.Violate("queued.early", "ops", "handler deadline earlier than the caller's minus 1ms (the request waited for a unary worker)", in, o.dl.Sub(D).String(), "waited about "+o.tSeen.Sub(t0).String())
+				case o.dl.After(D.Add(o.tSeen.Sub(t0))):
+					r.Violate("queued.late", "ops", "handler deadline later than the caller's plus the transit time", in, o.dl.Sub(D).String(), o.tSeen.Sub(t0).String())
+				}
+			default:
+				r.Violate("queued.lost", "ops", "the call did not reach its handler", in, nil, nil)
+			}
+		}
+		r.Count("c08.queued")
+		rig.Close()
+	}
+}
